@@ -1,0 +1,30 @@
+// SPDX-FileCopyrightText: 2022-present Intel Corporation
+//
+// SPDX-License-Identifier: Apache-2.0
+
+//go:build verif
+
+// Contracts for the deductive verifier in /verif (govc). Comment-only: this file contains no code
+// and is excluded from every build that does not set the "verif" tag.
+
+package utils
+
+//@ import metautils "github.com/grpc-ecosystem/go-grpc-middleware/util/metautils"
+
+// The caller is an administrator: one of its groups (";"-separated in the "groups" metadata) is,
+// exactly, one of the configured administrator groups (","-separated in ADMINGROUPS).
+//@ spec isAdmin(groups string, admins string) bool = exists g string :: g != "" && isField(g, groups, ";") && isField(g, admins, ",")
+
+//@ func TemporaryEvaluate(md) (err)
+//@   props C14
+//@   probe groups: mdGet(md, "groups")
+//@   probe admins: envOf("ADMINGROUPS")
+//@   ensures {C14} admin-accepted: isAdmin(mdGet(md, "groups"), envOf("ADMINGROUPS")) ==> err == nil
+//@   ensures {C14} non-admin-refused: err == nil ==> isAdmin(mdGet(md, "groups"), envOf("ADMINGROUPS"))
+//@   loop 1 invariant 0 - 1 <= rangeindex && !match && (forall j int :: 0 <= j && j <= rangeindex ==> !(splitAt(mdGet(md, "groups"), ";", j) != "" && isField(splitAt(mdGet(md, "groups"), ";", j), envOf("ADMINGROUPS"), ",")))
+
+//@ func isAdminGroup(adminGroups, group) (r)
+//@   props C14
+//@   modifies nothing
+//@   ensures {C14} exact-member: r == isField(group, adminGroups, ",")
+//@   loop 1 invariant 0 - 1 <= rangeindex && (forall j int :: 0 <= j && j <= rangeindex ==> splitAt(adminGroups, ",", j) != group)
